@@ -155,6 +155,17 @@ def qimpl(job):
 def run(ctx):
     rng = ctx.rng
     quick = ctx.tier == "quick"
+    # the print grammar's character classes, read from the grammar text of the tree under test, against the model's predicates
+    import c16_grammar
+    from common import zlit
+    cls_src, cls_err, cls_bad = None, None, []
+    try:
+        cls_src, tab = c16_grammar.classes()
+        bl = lambda k: listlit(tab[k], blit)
+        lit = f"mkCls16 {listlit(c16_grammar.CODES, zlit)} {bl('text')} {bl('root')} {bl('simple_name')} {bl('quoted_name')}"
+        cls_bad = sorted(coq_bad(ctx, "c16k", "Csv.CsvModel Data.DataModel Match.Print Harness.C16Cmp", "c16cls", [lit], ["c16_classes_agree"], chunk=10)["c16_classes_agree"])
+    except Exception as ex:  # noqa
+        cls_err = type(ex).__name__ + ": " + str(ex)[:200]
     jobs = []
     for i in range(700 if quick else 30000):
         jobs.append((gen_template(rng), gen_rows(rng), f"c16_{i}.csv", ""))
@@ -219,11 +230,15 @@ def run(ctx):
             c = {"qualifier": qjobs[k][0], "filter": qjobs[k][1], "rows": qjobs[k][2], "named_printout": qjobs[k][4], "impl": qres[k]}
             what = "print.once / print.onmatch did not print on exactly the lines the qualifiers allow"
         ctx.violation("verbatim", {"what": what, "case": c, "more": [case(i) for i in other[1:3]], "failures": len(other) + len(excs) + len(qbad["c16q_agree"])})
+    elif cls_err or cls_bad:
+        ctx.violation("correspondence", {"what": "the character classes of the print grammar's terminals (read from LarkPrintParser.GRAMMAR) no longer equal the model's "
+                                                 "(Match/Print.v name_char / is_ws / root / quoted classes; Harness/C16Cmp.c16_classes_agree); theorem C16_verbatim is about the model only",
+                                         "disagreeing_case": {"grammar_classes": cls_src, "error": cls_err}}, no_input=True)
     elif not d9 and [i for i in bad["c16_agree false"] if i < nj]:
         ctx.violation("correspondence", {"what": "correspondence Match/Print.v vs the print pipeline no longer checks (Harness/C16Cmp.c16_agree); theorem C16_verbatim is about the model only",
                                          "disagreeing_case": case(sorted(i for i in bad["c16_agree false"] if i < nj)[0])}, no_input=True)
     ctx.coverage.update({
-        "evaluations": len(jobs) + len(tjobs) + len(qjobs),
+        "evaluations": len(jobs) + len(tjobs) + len(qjobs), "grammar_classes_from_source": cls_src, "grammar_class_code_points": len(c16_grammar.CODES),
         "distinct_nontrivial": len({o["template"] for (c, r, f, q), o in zip(jobs, res) if sum(1 for x in c if x[0] == "ref") >= 2}),
         "rule": "templates of 1-5 chunks: text over letters, digits, spaces and 27 punctuation characters (no '$', no '\"'), references of 17 kinds (variables plain/key/index/length/unknown, "
                 "headers by name/index/unknown, metadata, csvpath fields) adjacent (one terminator character apart), many characters apart, at start and end; printed by "
